@@ -47,6 +47,7 @@ type Frame struct {
 type frameSet struct {
 	lists, objs, cells, arrs, maps []string
 	all                            bool
+	tree                           bool // anything may change except identities (ptr fields, allocation kinds of existing objects)
 }
 
 type Path struct {
@@ -140,6 +141,7 @@ type funcCtx struct {
 	names  map[string]ssa.Value // unique local names
 	nexits int
 	refNames map[string]bool
+	multi    map[string][]ssa.Value // local names with several SSA values (resolved per loop by dominance)
 }
 
 type Exec struct {
@@ -808,6 +810,14 @@ func (x *Exec) verifyFunc(fn *ssa.Function, ct *Contract) {
 			seen[name] = map[ssa.Value]bool{as[0]: true}
 		}
 	}
+	fc.multi = map[string][]ssa.Value{}
+	for name, vs := range seen {
+		if len(vs) > 1 {
+			for v := range vs {
+				fc.multi[name] = append(fc.multi[name], v)
+			}
+		}
+	}
 	for name, vs := range seen {
 		if len(vs) == 1 {
 			for v := range vs {
@@ -921,6 +931,10 @@ func (x *Exec) addFrame(fs *frameSet, env *SpecEnv, e Expr) {
 			fs.all = true
 			return
 		}
+		if n.Name == "tree" {
+			fs.tree = true
+			return
+		}
 	case *ECall:
 		if len(n.Args) == 1 {
 			sv, err := env.evalSV(n.Args[0])
@@ -970,6 +984,14 @@ func (x *Exec) addFrame(fs *frameSet, env *SpecEnv, e Expr) {
 func frameAxioms(fs *frameSet, Ha, Hb string) []string {
 	if fs.all {
 		return []string{fmt.Sprintf("(>= (next %s) (next %s))", Hb, Ha)}
+	}
+	if fs.tree {
+		var out []string
+		for _, comp := range []string{"Lptr", "Optr", "Kind"} {
+			out = append(out, fmt.Sprintf("(forall ((r Int)) (! (=> (< r (next %s)) (= (select (%s %s) r) (select (%s %s) r))) :pattern ((select (%s %s) r))))", Ha, comp, Hb, comp, Ha, comp, Hb))
+		}
+		out = append(out, fmt.Sprintf("(>= (next %s) (next %s))", Hb, Ha))
+		return out
 	}
 	notIn := func(v string, set []string) string {
 		if len(set) == 0 {
@@ -1026,8 +1048,19 @@ func (x *Exec) frameCheck1(p *Path, fs *frameSet, base, tag, kind, id string, in
 	if fs.all || (p.freshT[id] && tag == "frame/") {
 		return
 	}
+	if fs.tree {
+		if kind == "ptr" {
+			x.oblig(p, tag+"ptr-write", fmt.Sprintf("(>= %s (next %s))", id, base), x.cur.ct.Props, x.pos(in))
+		}
+		return
+	}
+	if kind == "ptr" {
+		kind = "list-or-obj"
+	}
 	var set []string
 	switch kind {
+	case "list-or-obj":
+		set = append(append([]string{}, fs.lists...), fs.objs...)
 	case "list":
 		set = fs.lists
 	case "obj":
@@ -1145,7 +1178,51 @@ func (x *Exec) iterOf(p *Path, head *ssa.BasicBlock) (SV, bool) {
 	return SV{}, false
 }
 
+// domVars binds local names that have several SSA values to the one whose definition dominates the loop head.
+func (x *Exec) domVars(p *Path, env *SpecEnv, head *ssa.BasicBlock) *SpecEnv {
+	f := p.frames[0]
+	for name, vals := range x.cur.multi {
+		if _, have := env.vars[name]; have {
+			continue
+		}
+		var cand []ssa.Value
+		for _, v := range vals {
+			in, ok := v.(ssa.Instruction)
+			if !ok || in.Block() == nil {
+				continue
+			}
+			if _, defined := f.env[v]; !defined {
+				continue
+			}
+			if in.Block().Dominates(head) && in.Block() != head {
+				cand = append(cand, v)
+			}
+		}
+		if len(cand) > 1 {
+			// keep the innermost (dominated by all others)
+			var inner []ssa.Value
+			for _, c := range cand {
+				ok := true
+				for _, d := range cand {
+					if d != c && !d.(ssa.Instruction).Block().Dominates(c.(ssa.Instruction).Block()) {
+						ok = false
+					}
+				}
+				if ok {
+					inner = append(inner, c)
+				}
+			}
+			cand = inner
+		}
+		if len(cand) == 1 {
+			env = env.with(name, f.env[cand[0]])
+		}
+	}
+	return env
+}
+
 func (x *Exec) iterVars(p *Path, env *SpecEnv, head *ssa.BasicBlock) *SpecEnv {
+	env = x.domVars(p, env, head)
 	if it, ok := x.iterOf(p, head); ok {
 		env = env.with("idx", term(fmt.Sprintf("(select (CInt %s) %s)", env.H, it.Loc.Cell), SInt))
 		env = env.with("ord", term(it.Arr, SOrd))
@@ -1271,7 +1348,7 @@ func (x *Exec) loopEdge(p *Path, li *loopInfo, from *ssa.BasicBlock, phis []*ssa
 			p.assume(ax)
 		}
 		x.seedFrame(p, lf, base, hb)
-		if !lf.all && len(lf.lists)+len(lf.objs)+len(lf.arrs)+len(lf.maps) == 0 {
+		if !lf.all && !lf.tree && len(lf.lists)+len(lf.objs)+len(lf.arrs)+len(lf.maps) == 0 {
 			p.assume(fmt.Sprintf("(ext %s %s)", base, hb))
 		}
 		p.anchors = nil
@@ -1543,6 +1620,14 @@ func (x *Exec) seedFrame(p *Path, fs *frameSet, base, hb string) {
 			continue
 		}
 		if fs.all {
+			continue
+		}
+		if fs.tree {
+			for _, c := range []string{"Kind", map[Sort]string{SRefL: "Lptr", SRefO: "Optr"}[v.S]} {
+				if c != "" && (v.S == SRefL || v.S == SRefO) {
+					p.assume(fmt.Sprintf("(=> (< %s (next %s)) (= (select (%s %s) %s) (select (%s %s) %s)))", v.T, base, c, hb, v.T, c, base, v.T))
+				}
+			}
 			continue
 		}
 		notIn := func(set []string) string {
